@@ -538,8 +538,18 @@ def snap(ctx: Ctx) -> None:
     # details.stack is reset in each attempt before it is appended to
     resets = [st for st in ast.walk(tr) if isinstance(st, ast.Assign) and norm(st.targets[0]) == "details.stack" and norm(st.value) == "[]"]
     apps = [st for st in ast.walk(tr) if isinstance(st, ast.Expr) and isinstance(st.value, ast.Call) and norm(st.value.func) == "details.stack.append"]
+    def _fresh_in_attempt(v: ast.AST) -> bool:
+        if isinstance(v, ast.List) and not v.elts:
+            return True
+        if isinstance(v, ast.Name):
+            src = [a_ for a_ in ast.walk(tr) if isinstance(a_, (ast.Assign, ast.AnnAssign)) and norm(a_.targets[0] if isinstance(a_, ast.Assign) else a_.target) == v.id and a_.value is not None]
+            return bool(src) and all(isinstance(a_.value, ast.List) and not a_.value.elts and in_body(tr.body, a_, mod) for a_ in src)
+        return False
+    stores = [st for st in ast.walk(tr) if isinstance(st, ast.Assign) and norm(st.targets[0]) == "details.stack"]
     if resets and apps and all(g.dominates(g.node_of(resets[0]), g.node_of(a)) for a in apps) and in_body(tr.body, resets[0], mod):
         ctx.R.ok("SNAP-6", "details.stack is reset at the start of each attempt's slot loop")
+    elif not apps and stores and all(_fresh_in_attempt(st.value) and in_body(tr.body, st, mod) for st in stores):
+        ctx.R.ok("SNAP-6", "details.stack is assigned a list built afresh inside each attempt")
     else:
         ctx.R.fail("SNAP-6", mod, tr, "details.stack must be reset inside each attempt before slots are appended: otherwise a retried attempt appends to the slots of the failed one", construct="details.stack = [] per attempt")
     # SNAP-8 after the snapshot is accepted the position is not read again: the handler-chain walk must start from the
